@@ -26,7 +26,7 @@ harnesses! {
 }
 
 /// transition for the loop harness: event in {event-less, e1, i1}, single target, optional raise of "i1" in its body
-fn loop_transition(sh: &Shape, k: u32, restricted: bool) -> (MT, u32, u32) {
+pub fn loop_transition(sh: &Shape, k: u32, restricted: bool) -> (MT, u32, u32) {
     let b = 100 * (k + 1);
     let n = sh.n as u32;
     let src = vnd_conc(vnd_range(2, n, b + 1), n);
